@@ -321,12 +321,89 @@ fn case(tier: Tier, case_no: usize, rng: &mut Rng, rep: &mut Report) {
             break;
         }
     }
+    // ---- the command-line runner: a second application built from the same TOML, the batch read from a query file
+    // (one JSON array, or newline-delimited JSON run in chunks), every chunk appending to the same output file ----
+    let mut cli_ran = false;
+    let mut appended: Option<String> = None;
+    let rows_before_cli = expected_rows_total;
+    let text_before_cli = std::fs::read_to_string(&filename).unwrap_or_default();
+    if all_ok && !csv_per_run && rng.chance(0.3) {
+        use routee_compass::app::cli::{cli_args::CliArgs, run::command_line_runner};
+        let ndjson = rng.chance(0.7);
+        let mut perm = batch.clone();
+        rng.shuffle(&mut perm);
+        let qpath = dir_probe.join(if ndjson { "queries.ndjson" } else { "queries.json" });
+        let (qtext, chunksize, shape) = if ndjson {
+            let c = *rng.pick(&[1usize, 2, 3, 7, 16, perm.len().max(1), perm.len() + 5]);
+            let mut t = String::new();
+            let mut junk = 0;
+            for q in &perm {
+                if rng.chance(0.03) {
+                    // a line that is not JSON is reported by the runner and answers nothing
+                    t.push_str("{\"origin_vertex\": 0, not json\n");
+                    junk += 1;
+                }
+                t.push_str(&q.to_string());
+                t.push('\n');
+            }
+            let rel = if c == 1 { "1" } else if c < perm.len() { "<n" } else if c == perm.len() { "=n" } else { ">n" };
+            (t, Some(c as i64), format!("ndjson chunk{rel}{}", if junk > 0 { " +unparseable lines" } else { "" }))
+        } else {
+            (Value::Array(perm.clone()).to_string(), None, "json array".to_string())
+        };
+        let _ = std::fs::write(&qpath, &qtext);
+        let args = CliArgs { config_file: built.config_path.to_string_lossy().to_string(), query_file: qpath.to_string_lossy().to_string(), chunksize, newline_delimited: ndjson };
+        set_app_sink(None);
+        let replay = || {
+            let mut r = base_replay.clone();
+            r["cli"] = json!({"query_file_text": qtext, "chunksize": chunksize, "newline_delimited": ndjson});
+            r
+        };
+        rep.eval();
+        match catch(|| command_line_runner(&args, None, None)) {
+            Err(pm) => {
+                rep.violate(&format!("C19|command_line_runner|{}|{fmt}", panic_sig(&pm)), format!("the command-line runner panicked: {pm}"), replay);
+                all_ok = false;
+            }
+            Ok(Err(e)) => {
+                rep.violate(&format!("C19|command_line_runner|returns-err|{fmt}"), format!("W6 the command-line runner returned Err for a batch that CompassApp::run answers: {e}"), replay);
+                all_ok = false;
+            }
+            Ok(Ok(())) => {
+                cli_ran = true;
+                rep.count("command_line_runs", 1);
+                rep.seen("command_line_shapes", shape);
+                let after = std::fs::read_to_string(&filename).unwrap_or_default();
+                match after.strip_prefix(text_before_cli.as_str()) {
+                    Some(rest) => appended = Some(rest.to_string()),
+                    None => {
+                        rep.violate(&format!("C19|file|earlier-records-changed-by-an-appending-application|{fmt}"), "W2 the file no longer starts with what it held before a second application appended to it".into(), replay);
+                        all_ok = false;
+                    }
+                }
+            }
+        }
+    }
     // ---- the file ----
+    // phase 0: what the runs of this application wrote; phase 1: what the second application (command-line runner)
+    // appended - judged as a file of its own under the header that is already there
+    let sink_refs: Vec<&Value> = reference.iter().filter(|r| !is_input_failure(r)).collect();
+    let mut phases: Vec<(String, usize, usize, bool)> = vec![];
     if all_ok {
-        let text = std::fs::read_to_string(&filename).unwrap_or_default();
-        let replay = || base_replay.clone();
-        let rows_expected = expected_rows_total;
-        let sink_refs: Vec<&Value> = reference.iter().filter(|r| !is_input_failure(r)).collect();
+        phases.push((text_before_cli.clone(), repeats, rows_before_cli, false));
+        if let Some(rest) = &appended {
+            let head = if csv_mode { text_before_cli.lines().next().map(|l| format!("{l}\n")).unwrap_or_default() } else { String::new() };
+            phases.push((format!("{head}{rest}"), 1, sink_refs.len(), true));
+        }
+    }
+    for (text, repeats, rows_expected, second_app) in phases {
+        let replay = || {
+            let mut r = base_replay.clone();
+            if second_app {
+                r["written_by"] = json!("a second application built from the same TOML (command-line runner), appending to the file");
+            }
+            r
+        };
         if csv_mode {
             match parse_csv(&text) {
                 Err(e) => rep.violate("C19|file|csv-unreadable", format!("W1 the csv file does not parse: {e}"), replay),
@@ -375,7 +452,33 @@ fn case(tier: Tier, case_no: usize, rng: &mut Rng, rep: &mut Report) {
                         for v in got.values_mut() {
                             v.sort();
                         }
-                        if want.keys().collect::<Vec<_>>() != got.keys().collect::<Vec<_>>() {
+                        // rows that are the right rows up to one reordering of the columns (only possible to tell for
+                        // a second application with an unsorted mapping): cells canonicalised and sorted within the row
+                        let canon = |c: &String, expected: bool| match c.parse::<f64>() {
+                            Ok(x) => format!("{x:.6e}"),
+                            // text cells are written JSON-escaped, array and object cells as their JSON text
+                            Err(_) => if expected && !matches!(serde_json::from_str::<Value>(c), Ok(Value::Array(_)) | Ok(Value::Object(_))) { json_inner(c) } else { c.clone() },
+                        };
+                        let bag = |rows: Vec<Vec<String>>, expected: bool| {
+                            let mut v: Vec<String> = rows
+                                .iter()
+                                .map(|r| {
+                                    let mut cs: Vec<String> = r.iter().map(|c| canon(c, expected)).collect();
+                                    cs.sort();
+                                    cs.join("\u{1f}")
+                                })
+                                .collect();
+                            v.sort();
+                            v
+                        };
+                        let strict_ok = want.keys().collect::<Vec<_>>() == got.keys().collect::<Vec<_>>()
+                            && want.iter().all(|(k, w)| {
+                                let g = &got[k];
+                                w.len() == g.len() && w.iter().zip(g).all(|(a, b)| a.iter().zip(b).all(|(x, y)| x == y || json_inner(x) == *y || matches!((x.parse::<f64>(), y.parse::<f64>()), (Ok(p), Ok(q)) if crate::oracle::units::rel_close(p, q, 1e-9, 0.0))))
+                            });
+                        if !strict_ok && second_app && !sorted && bag(want.values().flatten().cloned().collect(), true) == bag(rows.clone(), false) {
+                            rep.violate("C19|file|csv|rows-appended-by-a-second-application-follow-its-own-column-order", format!("W4 header {header:?}; the rows appended by a second application built from the same TOML hold the right cells in another column order, e.g. {:?}", rows.first()), replay);
+                        } else if want.keys().collect::<Vec<_>>() != got.keys().collect::<Vec<_>>() {
                             rep.violate("C19|file|csv-rows-not-a-bijection", "W2 the qids of the rows are not the qids of the responses".into(), replay);
                         } else {
                             for (k, w) in &want {
@@ -424,7 +527,7 @@ fn case(tier: Tier, case_no: usize, rng: &mut Rng, rep: &mut Report) {
                         rep.max("max_record_bytes", lines.iter().map(|l| l.len()).max().unwrap_or(0) as u64);
                     }
                 }
-                if spec.persist && !returned_all.is_empty() {
+                if spec.persist && !returned_all.is_empty() && !second_app {
                     // with persistence the records also equal what was handed back in these very runs
                     let back: Vec<Value> = returned_all.iter().filter(|r| !is_input_failure(r)).cloned().collect();
                     if let Some(d) = multiset_diff(&back, &parsed) {
@@ -613,7 +716,7 @@ pub fn run(tier: Tier, seed: u64) -> MonOut {
     crate::appgen::restore_stderr(saved);
     MonOut {
         report: rep,
-        rule: "applications with response_output_policy = file (newline-delimited JSON, or CSV with a random mapping of 2..12 columns built from paths, sums and optionals over numeric / string scalars, sorted or declaration-order header), flush rate 1..50 or default, both persistence policies, occasionally a combined sink with a second file, the policy given in TOML or per run; batches of 1..150 (thorough 600) object queries (valid, unreachable, terminated, grid-search, malformed), 35 % of the JSON cases with route and tree in json format so that a record is tens of kilobytes; 1..3 runs appending to the same file with parallelism 1,2,3,4,8,16,32, shuffled order and seeded delays at QueryStart/QueryEnd/BeforeWrite. oracle: the file parsed by serde_json / the csv crate vs the same batch run without any sink. non-trivial = batch of >= 5; distinct by (format, configuration, batch size, runs)".into(),
+        rule: "applications with response_output_policy = file (newline-delimited JSON, or CSV with a random mapping of 2..12 columns built from paths, sums and optionals over numeric / string scalars, sorted or declaration-order header), flush rate 1..50 or default, both persistence policies, occasionally a combined sink with a second file, the policy given in TOML or per run; batches of 1..150 (thorough 600) object queries (valid, unreachable, terminated, grid-search, malformed), 35 % of the JSON cases with route and tree in json format so that a record is tens of kilobytes; 1..3 runs appending to the same file with parallelism 1,2,3,4,8,16,32, shuffled order and seeded delays at QueryStart/QueryEnd/BeforeWrite; in 30 % of the cases whose policy sits in the TOML a second application (routee_compass::app::cli::run::command_line_runner on the same TOML: a JSON array, or newline-delimited JSON in chunks of 1, 2, 3, 7, 16, n, n+5 with occasional unparseable lines) appends the batch once more and its part of the file is judged under the header already there. oracle: the file parsed by serde_json / the csv crate vs the same batch run without any sink. non-trivial = batch of >= 5; distinct by (format, configuration, batch size, runs)".into(),
         assumptions: vec![
             "the reference for 'the response that was produced' is the same batch run without a sink (parallelism 1); volatile timing fields are ignored and state vectors compared as multisets".into(),
             "input-plugin failures never reach the sink by design (they are appended to the returned vector), so rows are expected for all other responses".into(),
